@@ -226,7 +226,6 @@ type c01ClassDef struct {
 }
 
 var c01Classes = []c01ClassDef{
-	{"findselection-shadow", func(o opFacts, d dataFacts, sh bool) bool { return sh }, []string{"wrong-data", "error/shape", "error/missing-id"}},
 	{"directive-variable", func(o opFacts, d dataFacts, sh bool) bool { return o.DirectiveVariable }, []string{"invalid-subrequest/undefined-variable"}},
 	{"directive-on-flattened-selection", func(o opFacts, d dataFacts, sh bool) bool { return o.Directive }, []string{"wrong-data"}},
 	{"root-typename", func(o opFacts, d dataFacts, sh bool) bool { return o.RootTypename }, []string{"error/internal-service-url"}},
